@@ -744,6 +744,22 @@ func (v *MaryTransactionOutputValue) UnmarshalCBOR(data []byte) error {
 	if _, err := cbor.Decode(data, &tmp); err != nil {
 		return err
 	}
+	// An output value is a multiasset<uint64> (positive_coin from Conway): the
+	// shared *big.Int quantity type also admits negative and > 2^64-1 bignums,
+	// which only a mint field may (partly) carry
+	if tmp.Assets != nil {
+		for _, policy := range tmp.Assets.Policies() {
+			for _, name := range tmp.Assets.Assets(policy) {
+				qty := tmp.Assets.Asset(policy, name)
+				if qty != nil && (qty.Sign() < 0 || qty.BitLen() > 64) {
+					return fmt.Errorf(
+						"transaction output asset quantity out of range [0, 2^64-1]: %s",
+						qty.String(),
+					)
+				}
+			}
+		}
+	}
 	*v = MaryTransactionOutputValue(tmp)
 	return nil
 }
